@@ -87,6 +87,45 @@ def join_iv(a, b):
     return (lo, hi, orig)
 
 
+def _sel_entries(s, vec):
+    if s is None:
+        return None
+    if s[0] == "bconst":
+        return [(s[1], {k: v for k, v in vec.items() if v != (0, INF, None)})]
+    if s[0] == "sel":
+        return [(val, dict(items)) for val, items in s[1]]
+    return None
+
+
+def _join_vecs(a, b):
+    return {k: join_iv(a[k], b[k]) for k in set(a) & set(b)}
+
+
+def _mentions(s, key):
+    if not isinstance(s, tuple):
+        return False
+    if s[0] == "sel":
+        return any(k == key for _, items in s[1] for k, _ in items)
+    return any(x == key or _mentions(x, key) for x in s[1:])
+
+
+def _apply_sel(st, sy, val):
+    """restrict the state to the paths on which the boolean had value `val`; False if there is none"""
+    hit = [dict(items) for v, items in sy[1] if v == val]
+    if not hit:
+        return False
+    for key, iv in hit[0].items():
+        cur = st.vec.get(key, (0, INF, None))
+        lo, hi = max(cur[0], iv[0]), min(cur[1], iv[1])
+        if lo > hi:
+            return False
+        orig = iv[2] if iv[2] is not None else cur[2]
+        if orig is not None and (lo != hi or len(orig) != lo):
+            orig = None
+        st.vec[key] = (lo, hi, orig)
+    return True
+
+
 class State:
     __slots__ = ("vec", "sym")
 
@@ -104,7 +143,20 @@ class State:
                 vec[k] = join_iv(self.vec[k], other.vec[k])
             else:
                 vec[k] = (0, INF, None)
-        sym = {l: v for l, v in self.sym.items() if other.sym.get(l) == v}
+        sym = {}
+        for l, a in self.sym.items():
+            b = other.sym.get(l)
+            if a == b:
+                sym[l] = a
+                continue
+            ea, eb = _sel_entries(a, self.vec), _sel_entries(b, other.vec)
+            if ea is not None and eb is not None:
+                # a boolean that is a different constant on the two paths: remember the length facts per value, so
+                # that a later switch on it (`if !matches!(len, 3 | 4)`, `let ok = ..; if ok`) restores them
+                merged = {}
+                for val, vv in ea + eb:
+                    merged[val] = _join_vecs(merged[val], vv) if val in merged else vv
+                sym[l] = ("sel", tuple(sorted((val, tuple(sorted(vv.items()))) for val, vv in merged.items())))
         return State(vec, sym)
 
     def __eq__(self, o):
@@ -128,7 +180,9 @@ class VecLen:
     def _sym_of_operand(self, st, op):
         if op["k"] == "const":
             v = op.get("val")
-            if isinstance(v, int) and not isinstance(v, bool):
+            if isinstance(v, bool):
+                return ("bconst", v)
+            if isinstance(v, int):
                 return ("const", v)
             return None
         if op["k"] in ("copy", "move"):
@@ -157,6 +211,22 @@ class VecLen:
     def _iv(self, st, key):
         return st.vec.get(key, (0, INF, None))
 
+    def _forget_syms(self, st, key):
+        """the length of `key` changed in an unknown way: values derived from its old length say nothing any more"""
+        for l, s in list(st.sym.items()):
+            if s[0] not in ("ref", "elem") and _mentions(s, key):
+                del st.sym[l]
+
+    def _shift_syms(self, st, key, d):
+        """the length of `key` just decreased by d: a local holding `old len + off` now holds `len + off + d`"""
+        for l, s in list(st.sym.items()):
+            if s[0] == "len" and s[1] == key:
+                st.sym[l] = ("len", key, s[2] + d)
+            elif s[0] == "cmp" and s[2] == key:
+                st.sym[l] = ("cmp", s[1], key, s[3] - d)
+            elif s[0] not in ("ref", "elem") and _mentions(s, key):
+                del st.sym[l]
+
     # -- transfer -----------------------------------------------------------
     def _stmt(self, st, s):
         if s["k"] != "assign":
@@ -169,6 +239,7 @@ class VecLen:
             for key in list(st.vec):
                 if key == k or key.startswith(k + "."):
                     st.vec[key] = (0, INF, None)
+                    self._forget_syms(st, key)
             return
         l = dst["l"]
         st.sym.pop(l, None)
@@ -177,6 +248,7 @@ class VecLen:
         for key in list(st.vec):
             if key == base or key.startswith(base + ".") or key.startswith("(*" + base + ")"):
                 del st.vec[key]
+                self._forget_syms(st, key)
         k = rv["k"]
         if k == "ref":
             st.sym[l] = ("ref", place_key(rv["place"]))
@@ -224,6 +296,7 @@ class VecLen:
             for key in list(st.vec):
                 if key == base or key.startswith(base + ".") or key.startswith("(*" + base + ")"):
                     del st.vec[key]
+                    self._forget_syms(st, key)
         key0 = self._vec_key_of_ref(st, args[0]) if args else None
         if name in (VEC_LEN, SLICE_LEN) and key0 and dl is not None:
             st.sym[dl] = ("len", key0, 0)
@@ -254,18 +327,24 @@ class VecLen:
                 if iv[2] is not None and k < len(iv[2]):
                     orig = iv[2][:k] + iv[2][k + 1:]
                 st.vec[key0] = (max(iv[0] - 1, 0), iv[1] - 1 if iv[1] < INF else INF, orig)
+                if ok:
+                    self._shift_syms(st, key0, 1)
+                else:
+                    self._forget_syms(st, key0)
             elif drain and drain["vec"] == key0:
                 self.obligations.append({"bb": bb, "kind": "remove", "vec": key0, "index": "rev-tail",
                                          "lo": iv[0], "hi": iv[1], "ok": True, "orig": "tail>=%d" % drain["K"],
                                          "need": "reverse tail drain idiom (i = len-1 at every iteration)",
                                          "idiom": drain})
                 self.site_elem[bb] = ("elem", key0, "tail")
+                self._forget_syms(st, key0)
                 # length inside the loop is not tracked; fixed on the loop exit edge
             else:
                 self.obligations.append({"bb": bb, "kind": "remove", "vec": key0, "index": "?",
                                          "lo": iv[0], "hi": iv[1], "ok": False, "orig": None,
                                          "need": "index < len (index not a constant)"})
                 st.vec[key0] = (0, INF, None)
+                self._forget_syms(st, key0)
             return
         if name == INDEX and key0:
             iv = self._iv(st, key0)
@@ -290,13 +369,19 @@ class VecLen:
             self.site_elem[bb] = ("elem", key0, last)
             self.site_state[bb] = (key0, iv)
             st.vec[key0] = (max(iv[0] - 1, 0), max(iv[1] - 1, 0) if iv[1] < INF else INF, orig)
+            if iv[0] >= 1:
+                self._shift_syms(st, key0, 1)
+            else:
+                self._forget_syms(st, key0)
             return
         if name == VEC_PUSH and key0:
             iv = self._iv(st, key0)
             st.vec[key0] = (iv[0] + 1, iv[1] + 1 if iv[1] < INF else INF, None)
+            self._shift_syms(st, key0, -1)
             return
         if name == VEC_CLEAR and key0:
             st.vec[key0] = (0, 0, ())
+            self._forget_syms(st, key0)
             return
         if name == VEC_NEW and dl is not None:
             st.vec["_%d" % dl] = (0, 0, ())
@@ -311,6 +396,7 @@ class VecLen:
             if k is not None and k in st.vec:
                 # was the reference a mutable one?  be conservative: forget
                 st.vec[k] = (0, INF, None)
+                self._forget_syms(st, k)
             if a["k"] == "move" and not a["place"]["p"]:
                 pk = "_%d" % a["place"]["l"]
                 st.vec.pop(pk, None)
@@ -340,6 +426,10 @@ class VecLen:
                         feasible = False
                     else:
                         s2.vec[sy[1]] = r
+                elif sy and sy[0] == "sel" and t["ty"] == "bool":
+                    feasible = _apply_sel(s2, sy, bool(v))
+                elif sy and sy[0] == "bconst" and t["ty"] == "bool":
+                    feasible = sy[1] == bool(v)
                 if feasible:
                     outs.append((b, s2))
             s2 = st.copy()
@@ -350,6 +440,10 @@ class VecLen:
                     feasible = False
                 else:
                     s2.vec[sy[2]] = r
+            elif sy and sy[0] == "sel" and t["ty"] == "bool" and vals in ([0], [1]):
+                feasible = _apply_sel(s2, sy, vals == [0])
+            elif sy and sy[0] == "bconst" and t["ty"] == "bool" and vals in ([0], [1]):
+                feasible = sy[1] == (vals == [0])
             elif sy and sy[0] == "len":
                 iv = self._iv(s2, sy[1])
                 for v in vals:
